@@ -3,8 +3,8 @@ from propcfg.common import *
 CFG = {
     "disabled": False,
     "props": "Props/C14.v",
-    "corr": ["Corr/RobustCorr.v"],
-    "engines": [("robust", [])],
+    "corr": ["Corr/RobustCorr.v", "Corr/CbStoreCorr.v", "Corr/StreamCorr.v"],
+    "engines": [("robust", []), ("cbstore", []), ("stream", [])],
     "axioms": [],
     "trusted": COMMON_TB + [
         "lock-path translator (harness/extract/lockpaths.go): go/parser plus receiver-field resolution of mutexes; calls it cannot resolve to a function of internal/dkg, internal/chain/beacon, internal/core, handler/http are taken to be neutral for the listed mutexes; function literals that are not invoked or deferred in place, and `go` bodies, run elsewhere and are not part of the path; panic points are the dereferences of request parameters",
@@ -18,6 +18,6 @@ CFG = {
         "blocking channel sends accepted under a lock are listed by name in Props/C14.v (the callbackStore job queue is property C12's finding F5)",
         "memory exhaustion, goroutine leaks, Go runtime fatal errors (concurrent map access in beaconExists / KeypairFor) and panics in goroutines not under an interceptor are outside the model; lock-order inversions between different mutexes are not checked (only self-deadlock)",
     ],
-    "level_text": "C14_paths_ok_sound is proved once: if the checker accepts a table of lock-event trees then every execution of every entry point (any branch, any number of loop iterations, a panic at any marked dereference, calls of any depth) never blocks on a mutex it already holds, never unlocks what it does not hold, and ends -- returning or panicking -- with no lock held. C14_locks / C14_recovery_installed / C14_contained are re-checked by the kernel on every run over Gen/LockPaths.v (lock events of 42 handlers of dkg.Process, echoBroadcast, the store decorators, DrandDaemon, BeaconProcess, DrandHandler and everything they call, regenerated from the sources) and Gen/Interceptors.v (interceptor chains of the peer-facing gRPC server). C14_total / C14_total_wire / C14_total_broadcast / C14_total_partial / C14_total_routed characterise, for ALL request shapes and node states of the request-level model, exactly when a handler dereferences nil (seven enumerated sites, four reachable from the wire), and C14_contained shows those frames release their locks and sit under the recovery interceptor. On every run the model is compared with real DrandDaemon / dkg.Process / HTTP handler objects on about a thousand generated requests in sequences, each under a deadline and followed by probes on the same and on other endpoints.",
+    "level_text": "C14_paths_ok_sound is proved once: if the checker accepts a table of lock-event trees then every execution of every entry point (any branch, any number of loop iterations, a panic at any marked dereference, calls of any depth) never blocks on a mutex it already holds, never unlocks what it does not hold, and ends -- returning or panicking -- with no lock held. C14_locks / C14_recovery_installed / C14_contained are re-checked by the kernel on every run over Gen/LockPaths.v (lock events of 42 handlers of dkg.Process, echoBroadcast, the store decorators, DrandDaemon, BeaconProcess, DrandHandler and everything they call, regenerated from the sources) and Gen/Interceptors.v (interceptor chains of the peer-facing gRPC server). C14_total / C14_total_wire / C14_total_broadcast / C14_total_partial / C14_total_routed characterise, for ALL request shapes and node states of the request-level model, exactly when a handler dereferences nil (seven enumerated sites, four reachable from the wire), and C14_contained shows those frames release their locks and sit under the recovery interceptor. On every run the model is compared with real DrandDaemon / dkg.Process / HTTP handler objects on about a thousand generated requests in sequences, each under a deadline and followed by probes on the same and on other endpoints. The callback-store and stream engines (followers registering, hanging up and re-requesting while beacons are being dispatched, on the real callbackStore / SyncChain) also run under this property: a panic or fatal error of the process running the real code under their inputs is reported as the failing observation (class process-died).",
     "level_note": "Kernel + vm_compute; no axioms. Partial by nature: memory exhaustion, goroutine leaks, runtime fatal errors and lock-order inversions across different mutexes are not expressible in the total functional model; the lock analysis is path-insensitive, covers the four analysed packages, and trusts the translator's call resolution.",
 }
